@@ -1067,9 +1067,18 @@ def check_delivery(w, q):
         # links that hold ONLY shared subscriptions on this group's filters: their forwards are group forwards
         pure = [l for (l, path, flt) in members
                 if all(strip_share(p)[0] is not None for p in set(x[0] for x in getattr(l, "new_subs", []))) and l.clean and not l.resumed]
+        # a resumed persistent member whose session holds nothing but this group's subscription: its
+        # forwards are group forwards as well; judged only against OTHER clients (its own earlier
+        # connection may legitimately have received the same message unacknowledged)
+        for l in w.links:
+            if l.registered and l.resumed and not l.notes and not getattr(l, "new_subs", None):
+                rs = set(p_ for (p_, _q, _s) in getattr(l, "resumed_subs", []))
+                if rs and rs <= paths_g and len(rs) == 1 and l not in pure:
+                    pure.append(l)
+                    l.pure_resumed = True
         seen = {}
-        for l in set(pure):
-            groups_of_l = set(strip_share(p)[0] for p in set(x[0] for x in getattr(l, "new_subs", [])))
+        for l in sorted(set(pure), key=lambda x: x.k):
+            groups_of_l = set(strip_share(p)[0] for p in set(x[0] for x in getattr(l, "new_subs", [])) | set(p_ for (p_, _q, _s) in (getattr(l, "resumed_subs", []) if getattr(l, "pure_resumed", False) else [])))
             if len(groups_of_l) != 1:
                 continue
             c = defaultdict(int)
@@ -1078,9 +1087,9 @@ def check_delivery(w, q):
                     continue
                 key = (f["topic_resolved"], f["payload"])
                 c[key] += 1
-            n_paths = len(set(x[0] for x in getattr(l, "new_subs", [])))
+            n_paths = len(set(x[0] for x in getattr(l, "new_subs", []))) or 1
             for key, cnt in c.items():
-                if cnt > n_paths:
+                if cnt > n_paths and not getattr(l, "pure_resumed", False):
                     if g in w.rewound_groups:
                         w.known.append((l.at, "C17", "K-C17-rewind", "group %r member link %d got %r %d times after the group cursor was rewound" % (g, l.k, key, cnt)))
                     elif g in w.recreated_groups:
@@ -1088,7 +1097,7 @@ def check_delivery(w, q):
                     else:
                         w.viol(l.at, "C17", "group %r member link %d got %r %d times" % (g, l.k, key, cnt))
                 if n_paths == 1:
-                    if key in seen and seen[key] is not l:
+                    if key in seen and seen[key] is not l and seen[key].name != l.name:
                         if g in w.rewound_groups:
                             w.known.append((l.at, "C17", "K-C17-rewind", "group %r: %r forwarded to two members after the group cursor was rewound" % (g, key)))
                         elif g in w.recreated_groups:
